@@ -313,7 +313,7 @@ func Main(run *hx.Run) {
 		}
 	}
 	// EVERY number of non-terminals (a chain) and of terminals (a keyword table) from 1 to 200 (more when the budget is
-	// enlarged): the table is built and one sentence and one non-sentence are parsed
+	// enlarged): the table is built and one input is parsed (every tenth size: more queries)
 	{
 		lap("before every-size")
 		r := run.R.Fork("every-size")
@@ -329,8 +329,10 @@ func Main(run *hx.Run) {
 				} else if n == 1 {
 					w = ""
 				}
-				ops := append(g.Lines(), strings.TrimRight("parse "+w, " "), "parse "+g.Terms[0]+" "+g.Terms[0]+" "+g.Terms[0],
-					"cell "+g.NonTerms[len(g.NonTerms)-1]+" "+g.Terms[len(g.Terms)-1], "cell "+g.NonTerms[0]+" $", "ll1", "unchanged")
+				ops := append(g.Lines(), strings.TrimRight("parse "+w, " "), "unchanged")
+				if n%10 == 0 {
+					ops = append(ops, "parse "+g.Terms[0]+" "+g.Terms[0]+" "+g.Terms[0], "cell "+g.NonTerms[len(g.NonTerms)-1]+" "+g.Terms[len(g.Terms)-1], "ll1")
+				}
 				c := hx.Case{Header: fmt.Sprintf("comp=predictive mix=every-size dim=%s size=%d eof=%s shuffle=%d", []string{"nonterminals", "terminals"}[d], n, eof(n), r.Intn(1<<30)), Ops: ops}
 				run.Do("predictive", c, Exec)
 			}
